@@ -29,6 +29,7 @@ SUP.append(["CREATE TABLE n1 (a int NOT NULL, b varchar(10))", "CREATE TABLE n2 
 SUP.append(["CREATE TABLE g1 (a int NOT NULL);", "GO", "CREATE TABLE g2 (b int, c varchar(5));", "GO", "USE db2", "CREATE INDEX gi ON g2 (b);"])
 SUP.append(["CREATE TABLE l1 (a varchar(9) DEFAULT 'n/a)', b varchar(9) COMMENT 'smile :)', c int DEFAULT 1);",
             "CREATE TABLE l2 (d varchar(9) DEFAULT ':(', e varchar(20) DEFAULT 'drop table x');"])
+SUP.append(["CREATE TABLE m1 (id int)", "CREATE TABLE m2 (id int, n varchar(5));"])  # only the first statement lacks its ';'
 PRE = ["INSERT INTO t1 VALUES (1, 'x');", "GRANT SELECT ON t1 TO joe;", "USE db1;", "GO", "DELETE FROM t1;",
        # the same classes in lower case and spread over several lines
        "insert into t1 values (1, 'x');", "grant select on t1 to joe;", "use db1;", "go", "delete from t1;",
@@ -56,7 +57,7 @@ ROBUST = ["CREATE TABLE tempdb..t (a int);", "DROP TABLE db..t;", "CREATE TABLE 
           # a trailing word the grammar does not know after the table body / after a table-level constraint (SQLite STRICT, Oracle ENABLE ...)
           "CREATE TABLE t (a int, b int, PRIMARY KEY (a)) STRICT;", "CREATE TABLE t (a int, b int, CONSTRAINT pk PRIMARY KEY (a) ENABLE);",
           "CREATE TABLE t (a int, b int, UNIQUE (a, b) ENABLE);", "CREATE TABLE t (a int, b int, FOREIGN KEY (a) REFERENCES o (id) ENABLE);",
-          "CREATE TABLE t (a int, b int) NOLOGGING;",
+          "CREATE TABLE t (a int, b int) NOLOGGING;", "CREATE TABLE t (a int, b int) STRICT;", "CREATE TABLE u (b int ^);",
           "CREATE TABLE [dbo].[Order Details] ([Order ID] int);", "CREATE TABLE t (a int, b int) WITH (fillfactor=70);"]
 BAD_MODES = ["", "SQL", "Hql", "postgresql", "none", "bigquery ", "sql\n",
              # fragments and combinations of valid names
@@ -149,6 +150,18 @@ def evaluate(case):
             diffs.append(diff("silent=False", "loud-wrong-exception", "DDLParserError or a result", l[1:3]))
         if s[0] == "ok" and l[0] == "ok" and s != l:
             diffs.append(diff("silent vs loud", "silent-loud-differ", short(s), short(l)))
+        if s[0] == "ok" and l[0] == "exc" and l[1] == "DDLParserError" and all(x.rstrip().endswith(";") for x in lines if not x.split()[0] in ("GO", "USE")):
+            # (scripts without ';' terminators are left out: there a foreign line is glued to the unterminated statement before it)
+            # a statement silent=False rejects yields NO entity under silent=True: the result is that of the script without it
+            base = run_ddl("\n".join(lines), {"silent": True}, {"output_mode": case["mode"]})
+            if base[0] == "ok" and entities(s[1]) != entities(base[1]):
+                diffs.append(diff("silent=True result vs the script without the rejected statement", "rejected-statement-yields-entity", short(base[1]), short(s[1])))
+        if s[0] == "ok":
+            for e in s[1]:
+                if isinstance(e, dict) and "table_name" in e and "columns" in e:
+                    bad = [k for k in ("primary_key", "checks", "index", "columns", "partitioned_by") if k in e and not isinstance(e[k], list)]
+                    if bad or not isinstance(e.get("alter", {}), dict):
+                        diffs.append(diff("table entry %r" % e.get("table_name"), "table-entry-shape", "lists / dict", {k: e.get(k) for k in bad + ["alter"]}))
         return {"diffs": diffs, "nontrivial": True, "outcome": "robust:" + l[0]}
     if k in ("sup", "gen"):
         ddl = case["ddl"] if k == "gen" else script(case)
